@@ -12,11 +12,12 @@
      * repeating the call (same features, same quantile) changes nothing: the second call finds no (arm, donor) pair and
        returns the state it was given (cf_warm_start_idempotent; Softmax re-derives the same shares);
      * the set of pairs grows with the threshold (the threshold is np.quantile of the closest distances at q);
-    ..._partial: monotonicity of np.quantile itself in q,
-    in the quantile and idempotence are checked by the warm-start relation with an independently recomputed
-    threshold; linear policies by correspondence. *)
+     * np.quantile (linear interpolation, as the model computes it: sort, index (n-1)*q, floor, interpolate with numpy's two formulas) is
+       MONOTONE in q for q >= 0 (QuantileMono.v; ordered-field laws plus the specification of floor, met by the rationals), hence the threshold
+       grows with distance_quantile and a larger quantile can only ADD (cold arm, donor) pairs (warm_pairs_monotone_in_quantile).
+    The laws are also executed on the implementation by the warm-start relation with an independently recomputed threshold. *)
 From Coq Require Import List ZArith Bool Arith QArith Qcanon Permutation.
-From MW Require Import Num Assoc AssocFacts Rng Par CF CFInv CFClean CFForget CFSpec Matrix Lin Warm WarmInv Nbr NbrFacts NbrIndep LshFacts Clu Tree CellFacts Mab FacadeCF FacadeArms MoreFacts NumLaws CFAlg Sim Extra QcInst OrderFacts ExpIrrel LinInv FacadeLin LpInv NbrInv CluTreeInv FacadeAll ToyFacts C09All C10All LinForget LinSim MatrixFacts GaussJordan LinSpec NbrIndepGen CluIndep C17Lin WarmIdem C14More LshScale TreeLeaf Rename PopSpec CopyFacts StatFacts CluBatch LinWarm.
+From MW Require Import Num Assoc AssocFacts Rng Par CF CFInv CFClean CFForget CFSpec Matrix Lin Warm WarmInv Nbr NbrFacts NbrIndep LshFacts Clu Tree CellFacts Mab FacadeCF FacadeArms MoreFacts NumLaws CFAlg Sim Extra QcInst OrderFacts ExpIrrel LinInv FacadeLin LpInv NbrInv CluTreeInv FacadeAll ToyFacts C09All C10All LinForget LinSim MatrixFacts GaussJordan LinSpec NbrIndepGen CluIndep C17Lin WarmIdem C14More LshScale TreeLeaf Rename PopSpec CopyFacts StatFacts CluBatch LinWarm QuantileMono.
 Import ListNotations.
 
 Theorem C13_pairs_are_cold_arm_trained_donor_within_threshold :
@@ -92,6 +93,42 @@ Theorem C13_pairs_grow_with_the_threshold :
 Proof. exact @warm_pairs_monotone_in_threshold. Qed.
 Print Assumptions C13_pairs_grow_with_the_threshold.
 
+Theorem C13_quantile_is_monotone_in_q :
+  forall (R : Type) (N : Num R),
+  NumLaws N ->
+  floor_ok N ->
+  forall (a : list R) (q q' : R),
+  a <> [] ->
+  leb N (zero N) q = true -> leb N q q' = true -> leb N (quantile N a q) (quantile N a q') = true.
+Proof. exact @quantile_monotone. Qed.
+Print Assumptions C13_quantile_is_monotone_in_q.
+
+Theorem C13_threshold_grows_with_the_quantile :
+  forall (R A : Type) (N : Num R),
+  NumLaws N ->
+  floor_ok N ->
+  forall (dt : list (A * list (A * R))) (q q' thr thr' : R),
+  leb N (zero N) q = true ->
+  leb N q q' = true ->
+  distance_threshold N dt q = Some thr ->
+  distance_threshold N dt q' = Some thr' -> leb N thr thr' = true.
+Proof. exact @distance_threshold_monotone. Qed.
+Print Assumptions C13_threshold_grows_with_the_quantile.
+
+Theorem C13_pairs_grow_with_the_quantile :
+  forall (R A : Type) (N : Num R),
+  NumLaws N ->
+  forall aeqb : A -> A -> bool,
+  floor_ok N ->
+  forall (trained cold : list A) (dt : list (A * list (A * R))) (q q' thr thr' : R),
+  leb N (zero N) q = true ->
+  leb N q q' = true ->
+  distance_threshold N dt q = Some thr ->
+  distance_threshold N dt q' = Some thr' ->
+  incl (cold_to_warm_gen N aeqb trained cold dt thr) (cold_to_warm_gen N aeqb trained cold dt thr').
+Proof. exact @warm_pairs_monotone_in_quantile. Qed.
+Print Assumptions C13_pairs_grow_with_the_quantile.
+
 Theorem C13_invariant_survives_warm_start_linear :
   forall (R A G : Type) (N : Num R) (aeqb : A -> A -> bool),
   (forall x y : A, aeqb x y = true <-> x = y) ->
@@ -120,4 +157,8 @@ Theorem C13_linear_pairs_are_cold_arm_trained_donor_within_threshold :
 Proof. exact @lin_warm_pairs_sound. Qed.
 Print Assumptions C13_linear_pairs_are_cold_arm_trained_donor_within_threshold.
 
+
+(* non-vacuity: the floor of the rational instance meets the specification assumed by the monotonicity theorems *)
+Example C13_floor_hypothesis_is_met : floor_ok QcNum.
+Proof. exact Qc_floor_ok. Qed.
 
